@@ -277,14 +277,39 @@ def check_marginalisation(rep, prog):
         ok = not problems_ and {k: ast.unparse(v) for k, v in b_.items() if not (isinstance(v, ast.Constant) and v.value is None)} == {'yy': 'phi', 'xx': 'xx', 'axis': 'popnum - 1'}
     rep.ob('R-IDX', 'PhiManip.remove_pop', ok, ast.unparse(ret[0]) if ret else '', pm.rel, rp.lineno, what='integrates axis popnum-1 with the trapezoid rule')
     fp = prog.func('dadi.PhiManip', 'filter_pops')
-    loops = [n for n in own_nodes(fp) if isinstance(n, ast.For)]
-    # (toremove is list(range(1, ndim + 1)) with entries removed, hence ascending: reversing it is the descending order)
-    ok = len(loops) == 2 and ast.unparse(loops[1].iter) in ('sorted(toremove)[::-1]', 'reversed(toremove)', 'toremove[::-1]', 'sorted(toremove, reverse=True)', 'reversed(sorted(toremove))') and \
-        'remove_pop(phi, xx, pop_ii)' in ast.unparse(loops[1]) and \
-        ast.unparse(loops[0].iter) == 'tokeep' and 'toremove.remove(pop_ii)' in ast.unparse(loops[0])
-    tr0 = single_assignments(fp).get('toremove')
-    ok = ok and tr0 is not None and ast.unparse(tr0) == 'list(range(1, phi.ndim + 1))'
-    rep.ob('R-IDX', 'PhiManip.filter_pops', ok, 'removes the complement of tokeep in descending order', pm.rel, fp.lineno, what='descending removal keeps the remaining axis numbers valid')
+    # every set of populations to keep, for 2-5 dimensions (abstract execution; remove_pop is summarised above): the populations not
+    # kept are integrated out one at a time, highest number first, each from the result of the previous removal
+    import itertools
+    from sa import miniexec as mx
+    from sa import alpha as _alpha
+    known = _alpha.load_table().get('__params__', {}).get(pm.rel)
+    known = set(known) if known is not None else None
+    bad, n_runs = [], 0
+    try:
+        for D in (2, 3, 4, 5):
+            for r_ in range(1, D + 1):
+                for keep in itertools.combinations(range(1, D + 1), r_):
+                    for order in (list(keep), list(keep)[::-1]):
+                        it = mx.Interp(prog, pm, known_functions=known)
+                        paths = [p_ for p_ in it.run(fp, {'phi': mx.Sym('phi', attrs={'ndim': D}), 'xx': mx.Sym('xx'), 'tokeep': list(order)}) if p_[0][0] == 'return']
+                        n_runs += 1
+                        if len(paths) != 1:
+                            bad.append('%dD tokeep=%s: %d returning paths' % (D, order, len(paths)))
+                            continue
+                        v = paths[0][0][1]
+                        chain = []
+                        while mx.call_of(v, 'remove_pop') is not None:
+                            a_, k_ = mx.call_of(v, 'remove_pop')
+                            chain.append((a_[2] if len(a_) > 2 else k_.get('popnum'), mx.show(a_[1] if len(a_) > 1 else k_.get('xx'))))
+                            v = a_[0] if a_ else k_.get('phi')
+                        chain.reverse()
+                        want = [k for k in range(D, 0, -1) if k not in keep]
+                        if mx.show(v) != 'phi' or [c_[0] for c_ in chain] != want or any(c_[1] != 'xx' for c_ in chain):
+                            bad.append('%dD tokeep=%s: removes %s' % (D, order, [c_[0] for c_ in chain]))
+    except mx.Undecidable as e:
+        bad.append('filter_pops is not recognised: %s' % e)
+    rep.ob('R-IDX', 'PhiManip.filter_pops', not bad, '; '.join(bad[:2]) if bad else 'removes the complement of tokeep in descending order (%d runs)' % n_runs, pm.rel, fp.lineno,
+           what='descending removal keeps the remaining axis numbers valid')
 
 
 def run(rep, prog, tier):
